@@ -102,4 +102,14 @@ CHECKS = {
         assumptions=["reference = the documented convention (docs/src/api/apply.md) with the merge-key precedence list of apply.go; null-valued desired/lastApplied fields are checked for purity, totality and idempotence only ('null = no opinion')",
                      "randomly generated / coverage-guided fuzzed triples are outside this technique family and not claimed"],
     ),
+    "C10": dict(
+        level="model_checking",
+        rule="explicit-state BFS over parent life cycles per configuration (finalize hook none/keep/teardown/finalized-at-once x rolling x hook removed later): events create, relabel (match/unmatch), delete background/foreground/orphan, foreign finalizer add/drop, spec edit, deliverAll, gc, reconfigure, sync, sync with a caused conflict / injected 500 on the finalizer write; "
+             "two roots (empty cluster; steady parent with children); state = canonical store + caches + staleness + one-shot budgets; monitors F1-F7 on every sync transition",
+        units=[
+            dict(pkg=COMPOSITE, test="TestVerifC10", shards=dict(quick=15, thorough=15), budget=dict(quick=240, thorough=3000)),
+        ],
+        assumptions=SIM_ASSUMPTIONS + ["canonical form: resourceVersions replaced by fresh/stale bits, UIDs renamed in order of appearance (the code compares both only for equality)"],
+        traces_are_evals=False,
+    ),
 }
